@@ -32,7 +32,6 @@ import (
 	"sort"
 	"strconv"
 	"strings"
-	"sync"
 	"syscall"
 	"testing"
 	"testing/synctest"
@@ -552,16 +551,16 @@ func c12Content(cpath string, data []byte) string {
 	case 'M':
 		var m Manifest
 		if err := json.Unmarshal(data, &m); err == nil {
-			parts := []string{}
+			parts := []string{fmt.Sprintf("%s/%d", c12Hex64(m.Config.Digest), m.Config.Size)}
 			for _, l := range m.Layers {
-				parts = append(parts, fmt.Sprintf("%s:%d", c12Hex64(l.Digest), l.Size))
+				parts = append(parts, fmt.Sprintf("%s/%d", c12Hex64(l.Digest), l.Size))
 			}
-			return fmt.Sprintf("man:%s:%d:[%s]", c12Hex64(m.Config.Digest), m.Config.Size, strings.Join(parts, ","))
+			return "man:" + strings.Join(parts, ",")
 		}
 	case 'R':
 		var p jsonBlobDownloadPart
 		if err := json.Unmarshal(data, &p); err == nil {
-			return fmt.Sprintf("rec:%d:%d:%d:%d", p.N, p.Offset, p.Size, p.Completed)
+			return fmt.Sprintf("rec:%d/%d/%d/%d", p.N, p.Offset, p.Size, p.Completed)
 		}
 	}
 	return "raw:" + zzverif.Hex(data)
@@ -642,6 +641,9 @@ func c12State(store string) []string {
 		}
 		data, _ := os.ReadFile(p)
 		cp := c.path(p)
+		if strings.HasPrefix(cp, "T:") {
+			cp = "T:*"
+		}
 		out = append(out, cp+"="+c12Content(cp, data))
 		return nil
 	})
@@ -796,6 +798,132 @@ func c12PullOp(name string, chunk int, cfg []byte, layers ...[]byte) c12Op {
 
 const c12Lib = "registry.ollama.ai/library/"
 
+// ---------------------------------------------------------------------------------------------
+// oracle command lines
+
+func c12StoreTokens(state []string, numberTemps bool) string {
+	toks := []string{strconv.Itoa(len(state))}
+	k := 0
+	for _, e := range state {
+		path, content, _ := strings.Cut(e, "=")
+		if path == "T:*" {
+			path = fmt.Sprintf("T:%d", 1000+k) // debris temps: ids the op never uses
+			k++
+		}
+		toks = append(toks, path, content)
+	}
+	return strings.Join(toks, " ")
+}
+
+func c12HashTokens(datas [][]byte) string {
+	seen := map[string]bool{}
+	toks := []string{}
+	n := 0
+	for _, d := range datas {
+		h := zzverif.Hex(d)
+		if seen[h] {
+			continue
+		}
+		seen[h] = true
+		n++
+		toks = append(toks, h, c12Hex64(c12Digest(d)))
+	}
+	return strings.TrimSpace(strconv.Itoa(n) + " " + strings.Join(toks, " "))
+}
+
+func c12BlobTokens(bs []c12Blob) string {
+	toks := []string{strconv.Itoa(len(bs))}
+	for _, b := range bs {
+		toks = append(toks, c12Hex64(b.Digest), b.Data)
+	}
+	return strings.Join(toks, " ")
+}
+
+// c12OpTokens renders the op for the oracle. For create, the data layers are what the real code
+// decided to store (read back from the manifest the uninterrupted run wrote); the model predicts
+// the order and kind of the file-system effects, not the JSON text of the config layer.
+func c12OpTokens(op *c12Op, fullStore string) (string, [][]byte) {
+	var hashed [][]byte
+	for _, b := range op.Uploads {
+		hashed = append(hashed, zzverif.Unhex(b.Data))
+	}
+	for _, b := range op.Blobs {
+		hashed = append(hashed, zzverif.Unhex(b.Data))
+	}
+	switch op.Kind {
+	case "upload":
+		return fmt.Sprintf("upload %s %s", c12Hex64(op.Uploads[0].Digest), op.Uploads[0].Data), hashed
+	case "create":
+		raw, err := os.ReadFile(filepath.Join(fullStore, "manifests", c12Lib+op.Name, "latest"))
+		if err != nil {
+			panic(err)
+		}
+		var m Manifest
+		if err := json.Unmarshal(raw, &m); err != nil {
+			panic(err)
+		}
+		blob := func(d string) []byte {
+			b, err := os.ReadFile(filepath.Join(fullStore, "blobs", strings.ReplaceAll(d, ":", "-")))
+			if err != nil {
+				panic(err)
+			}
+			return b
+		}
+		datas := []string{}
+		for _, l := range m.Layers {
+			if l.Digest == op.File {
+				continue
+			}
+			datas = append(datas, zzverif.Hex(blob(l.Digest)))
+			hashed = append(hashed, blob(l.Digest))
+		}
+		cfg := blob(m.Config.Digest)
+		hashed = append(hashed, cfg)
+		return fmt.Sprintf("create %s %s %s %d %s %s", c12Lib+op.Name+"/latest", c12BlobTokens(op.Uploads), c12Hex64(op.File),
+			len(datas), strings.Join(datas, " "), zzverif.Hex(cfg)), hashed
+	case "copy":
+		return fmt.Sprintf("copy %s %s", c12Lib+op.Src+"/latest", c12Lib+op.Name+"/latest"), hashed
+	case "delete":
+		return "delete " + c12Lib + op.Name + "/latest", hashed
+	case "pull":
+		return fmt.Sprintf("pull %s %s %s", c12Lib+op.Name+"/latest", c12Content("M:x", []byte(op.Manifest)), c12BlobTokens(op.Blobs)), hashed
+	}
+	panic("bad op")
+}
+
+func c12Join(ss []string) string {
+	return strings.Join(ss, " ")
+}
+
+// ---------------------------------------------------------------------------------------------
+// the parent test
+
+func c12ManifestBytes(store string) map[string]string {
+	out := map[string]string{}
+	root := filepath.Join(store, "manifests")
+	filepath.Walk(root, func(p string, fi os.FileInfo, err error) error {
+		if err != nil || fi.IsDir() {
+			return nil
+		}
+		rel, _ := filepath.Rel(root, p)
+		b, _ := os.ReadFile(p)
+		out[rel] = string(b)
+		return nil
+	})
+	return out
+}
+
+func c12ReadableListing(store string) string {
+	readable, _ := c12Walk(store)
+	var items []string
+	for n, m := range readable {
+		raw, _ := json.Marshal(m)
+		items = append(items, n+"="+c12Content("M:"+n, raw))
+	}
+	sort.Strings(items)
+	return strings.Join(items, " ")
+}
+
 func TestVerifC12(t *testing.T) {
 	if os.Getenv("VERIF_C12_CHILD") != "" {
 		t.Skip("child mode")
@@ -809,53 +937,24 @@ func TestVerifC12(t *testing.T) {
 	defer os.RemoveAll(work)
 	rng := zzverif.NewRng(zzverif.Seed())
 	thorough := os.Getenv("VERIF_TIER") == "thorough"
-	_ = thorough
-
-	// ---- material
-	g1, g2 := c12GGUF(t, uint32(rng.Intn(1000))), c12GGUF(t, 1000+uint32(rng.Intn(1000)))
-	chunk := rng.Range(24, 48)
-	pl1 := append([]byte("pulled-layer-one:"), rng.Bytes(rng.Range(40, 90))...)
-	pl2 := append([]byte("pulled-layer-two:"), rng.Bytes(rng.Range(20, 60))...)
-	pl3 := append([]byte("pulled-layer-three:"), rng.Bytes(rng.Range(30, 70))...)
-	cfg1, cfg2 := []byte(`{"model_format":"gguf","v":1}`), []byte(`{"model_format":"gguf","v":2}`)
-
-	// ---- store S1: a, b share the gguf layer; c pulled (layers pl1, pl2)
-	s1 := filepath.Join(work, "S1")
-	t.Setenv("OLLAMA_MODELS", s1)
-	prep := func(op c12Op) {
-		if r := c12RunOp(t, &op); r != "ok" {
-			t.Fatalf("prepare %s %s: %s", op.Kind, op.Name, r)
+	replay := ""
+	if p := os.Getenv("VERIF_REPLAY"); p != "" {
+		raw, err := os.ReadFile(p)
+		if err != nil {
+			t.Fatal(err)
 		}
+		replay = strings.TrimSpace(string(raw))
 	}
-	prep(c12Op{Kind: "create", Name: "a", Uploads: c12Blobs(g1), File: c12Digest(g1), System: "system prompt of a", Chunk: chunk})
-	prep(c12Op{Kind: "create", Name: "b", Uploads: c12Blobs(g1), File: c12Digest(g1), System: "system prompt of b", Chunk: chunk})
-	prep(c12PullOp("c", chunk, cfg1, pl1, pl2))
-	if _, err := c12Restart(); err != nil {
-		t.Fatal(err)
-	}
-
-	scen := []c12Scenario{
-		{"S1", "upload-new", c12Op{Kind: "upload", Uploads: c12Blobs(g2), Chunk: chunk}, nil},
-		{"S1", "create-new", c12Op{Kind: "create", Name: "d", Uploads: c12Blobs(g2), File: c12Digest(g2), System: "system prompt of d", Chunk: chunk}, []string{c12Lib + "d/latest"}},
-		{"S1", "create-replace", c12Op{Kind: "create", Name: "a", Uploads: c12Blobs(g1), File: c12Digest(g1), System: "second system prompt of a", Chunk: chunk}, []string{c12Lib + "a/latest"}},
-		{"S1", "copy-new", c12Op{Kind: "copy", Src: "a", Name: "e"}, []string{c12Lib + "e/latest"}},
-		{"S1", "copy-over", c12Op{Kind: "copy", Src: "a", Name: "c"}, []string{c12Lib + "c/latest"}},
-		{"S1", "delete-shared", c12Op{Kind: "delete", Name: "a"}, []string{c12Lib + "a/latest"}},
-		{"S1", "delete-unshared", c12Op{Kind: "delete", Name: "c"}, []string{c12Lib + "c/latest"}},
-		{"S1", "pull-new", c12PullOp("f", chunk, cfg2, pl1, pl3), []string{c12Lib + "f/latest"}},
-		{"S1", "pull-update", c12PullOp("c", chunk, cfg2, pl1, pl3), []string{c12Lib + "c/latest"}},
-	}
-	stores := map[string]string{"S1": s1}
 
 	self, err := os.Executable()
 	if err != nil {
 		t.Fatal(err)
 	}
-	var mu sync.Mutex // serialises everything that depends on $OLLAMA_MODELS in the parent
-	runChild := func(sc *c12Scenario, dir string, killAt int) ([]c12Sys, bool, int, string, error) {
+	runChild := func(op *c12Op, dir string, killAt int) ([]c12Sys, bool, int, string, error) {
 		specPath := dir + ".spec.json"
-		raw, _ := json.Marshal(sc.Op)
+		raw, _ := json.Marshal(op)
 		os.WriteFile(specPath, raw, 0o644)
+		os.Remove(specPath + ".result")
 		var env []string
 		for _, kv := range os.Environ() {
 			if !strings.HasPrefix(kv, "OLLAMA_MODELS=") && !strings.HasPrefix(kv, "VERIF_C12_CHILD=") && !strings.HasPrefix(kv, "GOMAXPROCS=") {
@@ -868,26 +967,304 @@ func TestVerifC12(t *testing.T) {
 		return evs, killed, entered, string(res), err
 	}
 
-	for i := range scen {
-		sc := &scen[i]
-		base := stores[sc.Store]
-		full := filepath.Join(work, fmt.Sprintf("%s-%s-full", sc.Store, sc.Label))
-		c12CopyTree(base, full)
-		evs, _, entered, res, err := runChild(sc, full, 0)
-		if err != nil {
-			lg, _ := os.ReadFile(full + ".log")
-			t.Fatalf("%s: uninterrupted child failed: %v\n%s", sc.Label, err, lg)
+	rounds := 1
+	if thorough {
+		rounds = zzverif.EnvInt("VERIF_N", 6)
+	}
+	for round := 0; round < rounds; round++ {
+		r := rng.Fork()
+		// ---- material of this round
+		g1, g2 := c12GGUF(t, uint32(r.Intn(1000))), c12GGUF(t, 1000+uint32(r.Intn(1000)))
+		chunk := r.Range(24, 48)
+		if thorough && round%2 == 1 {
+			chunk = r.Range(5, 16)
 		}
-		canon := &c12Canon{store: full, temps: map[string]int{}}
-		effs := canon.effects(evs)
-		t.Logf("== %s: result=%s store syscalls=%d effects=%d", sc.Label, res, entered, len(effs))
-		for _, e := range effs {
-			if len(e) > 200 {
-				e = e[:200] + "..."
+		pl1 := append([]byte("pulled-layer-one:"), r.Bytes(r.Range(40, 90))...)
+		pl2 := append([]byte("pulled-layer-two:"), r.Bytes(r.Range(20, 60))...)
+		pl3 := append([]byte("pulled-layer-three:"), r.Bytes(r.Range(30, 70))...)
+		cfg1, cfg2 := []byte(`{"model_format":"gguf","v":1}`), []byte(`{"model_format":"gguf","v":2}`)
+		sysA, sysB := "system prompt of a "+strconv.Itoa(r.Intn(100)), "system prompt of b"
+
+		stores := map[string]string{}
+		// ---- store S1: a, b share the gguf layer; c pulled (layers pl1, pl2); all manifests readable
+		s1 := filepath.Join(work, fmt.Sprintf("r%d-S1", round))
+		stores["S1"] = s1
+		t.Setenv("OLLAMA_MODELS", s1)
+		prep := func(op c12Op) {
+			if res := c12RunOp(t, &op); res != "ok" {
+				t.Fatalf("prepare %s %s: %s", op.Kind, op.Name, res)
 			}
-			t.Logf("   %s", e)
 		}
-		mu.Lock()
-		mu.Unlock()
+		prep(c12Op{Kind: "create", Name: "a", Uploads: c12Blobs(g1), File: c12Digest(g1), System: sysA, Chunk: chunk})
+		prep(c12Op{Kind: "create", Name: "b", Uploads: c12Blobs(g1), File: c12Digest(g1), System: sysB, Chunk: chunk})
+		prep(c12PullOp("c", chunk, cfg1, pl1, pl2))
+		if _, err := c12Restart(); err != nil {
+			t.Fatal(err)
+		}
+
+		opCreateNew := c12Op{Kind: "create", Name: "d", Uploads: c12Blobs(g2), File: c12Digest(g2), System: "system prompt of d", Chunk: chunk}
+		opCreateShare := c12Op{Kind: "create", Name: "d", Uploads: c12Blobs(g1), File: c12Digest(g1), System: sysB, Chunk: chunk}
+		opCreateRepl := c12Op{Kind: "create", Name: "a", Uploads: c12Blobs(g1), File: c12Digest(g1), System: "second system prompt of a", Chunk: chunk}
+		opCopyNew := c12Op{Kind: "copy", Src: "a", Name: "e"}
+		opCopyOver := c12Op{Kind: "copy", Src: "a", Name: "c"}
+		opDelShared := c12Op{Kind: "delete", Name: "a"}
+		opDelUnshared := c12Op{Kind: "delete", Name: "c"}
+		opPullNew := c12PullOp("f", chunk, cfg2, pl1, pl3)
+		opPullUpd := c12PullOp("c", chunk, cfg2, pl1, pl3)
+		opCopyZ := c12Op{Kind: "copy", Src: "a", Name: "z"}
+
+		// crash-made stores: S2 = S1 after a crash that tore the manifest of z (copy a z killed at the copy);
+		// S3 = S2 after a pull of f killed right before its first part record is removed (record says complete);
+		// S4 = S2 after a pull of f killed in the middle of the first body (record says 0 completed).
+		crashStore := func(name, from string, op *c12Op, pick func(effs []string) int) {
+			probe := filepath.Join(work, fmt.Sprintf("r%d-%s-probe", round, name))
+			c12CopyTree(stores[from], probe)
+			evs, _, _, _, err := runChild(op, probe, 0)
+			if err != nil {
+				t.Fatalf("store %s probe: %v", name, err)
+			}
+			killAt := 0
+			for i := range evs {
+				canon := &c12Canon{store: probe, temps: map[string]int{}}
+				effs := canon.effects(evs[:i+1])
+				before := (&c12Canon{store: probe, temps: map[string]int{}}).effects(evs[:i])
+				if len(effs) > len(before) && pick(effs) == len(effs)-1 {
+					killAt = evs[i].Idx
+					break
+				}
+			}
+			if killAt == 0 {
+				t.Fatalf("store %s: no kill point", name)
+			}
+			dir := filepath.Join(work, fmt.Sprintf("r%d-%s", round, name))
+			c12CopyTree(stores[from], dir)
+			if _, killed, _, _, _ := runChild(op, dir, killAt); !killed {
+				t.Fatalf("store %s: not killed", name)
+			}
+			t.Setenv("OLLAMA_MODELS", dir)
+			if _, err := c12Restart(); err != nil {
+				t.Fatal(err)
+			}
+			stores[name] = dir
+		}
+		nth := func(prefix string, n int) func([]string) int {
+			return func(effs []string) int {
+				k := 0
+				for i, e := range effs {
+					if strings.HasPrefix(e, prefix) {
+						k++
+						if k == n {
+							return i
+						}
+					}
+				}
+				return -1
+			}
+		}
+		crashStore("S2", "S1", &opCopyZ, nth("cp ", 1))
+		crashStore("S3", "S2", &opPullNew, nth("rm R:", 1))
+		crashStore("S4", "S2", &opPullNew, nth("pw ", 2))
+
+		type scenario struct {
+			Store, Label string
+			Op           *c12Op
+			Involved     []string
+		}
+		inv := func(n string) []string { return []string{c12Lib + n + "/latest"} }
+		scen := []scenario{
+			{"S1", "upload-new", &c12Op{Kind: "upload", Uploads: c12Blobs(g2), Chunk: chunk}, nil},
+			{"S1", "create-new", &opCreateNew, inv("d")},
+			{"S1", "create-replace", &opCreateRepl, inv("a")},
+			{"S1", "copy-new", &opCopyNew, inv("e")},
+			{"S1", "copy-over", &opCopyOver, inv("c")},
+			{"S1", "delete-shared", &opDelShared, inv("a")},
+			{"S1", "delete-unshared", &opDelUnshared, inv("c")},
+			{"S1", "pull-new", &opPullNew, inv("f")},
+			{"S1", "pull-update", &opPullUpd, inv("c")},
+			{"S2", "pull-new", &opPullNew, inv("f")},
+			{"S2", "create-new", &opCreateNew, inv("d")},
+			{"S3", "pull-new", &opPullNew, inv("f")},
+		}
+		if thorough {
+			scen = append(scen,
+				scenario{"S1", "create-share", &opCreateShare, inv("d")},
+				scenario{"S2", "pull-update", &opPullUpd, inv("c")},
+				scenario{"S2", "create-replace", &opCreateRepl, inv("a")},
+				scenario{"S2", "copy-over", &opCopyOver, inv("c")},
+				scenario{"S2", "delete-unshared", &opDelUnshared, inv("c")},
+				scenario{"S2", "delete-shared", &opDelShared, inv("a")},
+				scenario{"S3", "pull-update", &opPullUpd, inv("c")},
+				scenario{"S4", "pull-new", &opPullNew, inv("f")},
+				scenario{"S4", "pull-update", &opPullUpd, inv("c")},
+			)
+		}
+
+		for i := range scen {
+			sc := &scen[i]
+			tag := fmt.Sprintf("r%d %s %s", round, sc.Store, sc.Label)
+			if replay != "" && !strings.HasPrefix(replay, tag+" ") {
+				continue
+			}
+			base := stores[sc.Store]
+			baseState := c12State(base)
+			baseReadable, _ := c12Walk(base)
+			baseManBytes := c12ManifestBytes(base)
+
+			// ---- uninterrupted, traced run: L1 (effects)
+			full := filepath.Join(work, fmt.Sprintf("r%d-%s-%s-full", round, sc.Store, sc.Label))
+			c12CopyTree(base, full)
+			evs, _, entered, res, err := runChild(sc.Op, full, 0)
+			if err != nil {
+				lg, _ := os.ReadFile(full + ".log")
+				t.Fatalf("%s: uninterrupted child failed: %v\n%s", tag, err, lg)
+			}
+			effs := (&c12Canon{store: full, temps: map[string]int{}}).effects(evs)
+			opToks, hashed := c12OpTokens(sc.Op, full)
+			for _, e := range baseState { // blobs already in the store may be hashed by verify
+				_ = e
+			}
+			job := fmt.Sprintf("%s %s %d %s", c12StoreTokens(baseState, true), c12HashTokens(hashed), max(1, sc.Op.Chunk), opToks)
+			okTok := " | ok"
+			if res != "ok" {
+				okTok = " | fail"
+			}
+			out.Case("effects "+job, strings.Join(effs, " ; ")+okTok)
+			out.Count("l1_effects_lines")
+			out.Add("l1_effects_total", len(effs))
+			out.Count("op_" + sc.Op.Kind)
+			fullReadable := c12ReadableListing(full)
+			t.Logf("== %s: result=%s store syscalls=%d effects=%d", tag, res, entered, len(effs))
+			if res != "ok" {
+				out.L2("uninterrupted-op-failed", tag+" 0 -", res)
+			}
+			// number of model effects completed before store syscall N is entered
+			effBefore := make([]int, entered+2)
+			for n := 1; n <= entered+1; n++ {
+				effBefore[n] = len((&c12Canon{store: full, temps: map[string]int{}}).effects(evs[:min(n-1, len(evs))]))
+			}
+			window := func(n int) string {
+				if n-1 < len(evs) {
+					w := (&c12Canon{store: full, temps: map[string]int{}}).effects(evs[:n])
+					if len(w) > effBefore[n] {
+						x := w[len(w)-1]
+						if f := strings.Fields(x); len(f) > 2 {
+							x = f[0] + " " + f[1]
+							if f[0] == "mv" || f[0] == "cp" {
+								x += " " + f[2]
+							}
+						}
+						return strings.ReplaceAll(x, " ", "_")
+					}
+					return fmt.Sprintf("sys%d", evs[n-1].Nr)
+				}
+				return "?"
+			}
+
+			// ---- every crash point
+			seen := map[string]bool{}
+			for n := 1; n <= entered; n++ {
+				if replay != "" && !strings.HasPrefix(replay, fmt.Sprintf("%s %d ", tag, n)) {
+					continue
+				}
+				caseLine := fmt.Sprintf("%s %d %s", tag, n, window(n))
+				dir := filepath.Join(work, fmt.Sprintf("r%d-%s-%s-k%d", round, sc.Store, sc.Label, n))
+				c12CopyTree(base, dir)
+				_, killed, _, _, _ := runChild(sc.Op, dir, n)
+				out.Count("cases")
+				if !killed {
+					out.L2("kill-missed", caseLine, "child finished before the kill point (nondeterministic syscall count?)")
+					os.RemoveAll(dir)
+					continue
+				}
+				crashed := c12State(dir)
+				key := strings.Join(crashed, "\n")
+				if seen[key] {
+					out.Count("crash_states_duplicate")
+					os.RemoveAll(dir)
+					continue
+				}
+				seen[key] = true
+				out.Count("crash_states_distinct")
+				k := effBefore[n]
+				inRmRun := sc.Op.Kind == "pull" && k > 0 && k < len(effs) && strings.HasPrefix(effs[k-1], "rm B:") && strings.HasPrefix(effs[k], "rm B:")
+				if !inRmRun {
+					out.Case(fmt.Sprintf("crash %d %s", k, job), c12Join(crashed))
+					out.Count("l1_crash_lines")
+				}
+
+				// ---- restart (the real start-up sequence) and the L2 walk
+				t.Setenv("OLLAMA_MODELS", dir)
+				pruned, err := c12Restart()
+				if err != nil {
+					out.L2("restart-failed", caseLine, err.Error())
+				}
+				if pruned {
+					out.Count("restart_pruned")
+				} else {
+					out.Count("restart_prune_skipped")
+				}
+				readable, torn := c12Walk(dir)
+				if len(torn) > 0 {
+					out.Count("states_with_torn_manifest")
+				}
+				for _, b := range c12CheckIntact(dir, readable) {
+					out.L2("dangling-layer", caseLine, "after restart: "+b)
+				}
+				manBytes := c12ManifestBytes(dir)
+				for name, m := range baseReadable {
+					involved := false
+					for _, x := range sc.Involved {
+						involved = involved || x == name
+					}
+					if involved {
+						if _, ok := readable[name]; !ok {
+							if _, exists := manBytes[name]; exists {
+								out.L2("replaced-model-lost", caseLine, fmt.Sprintf("window=%s %s was readable before the operation and is unreadable (%d bytes) after the crash", window(n), name, len(manBytes[name])))
+							}
+						}
+						continue
+					}
+					if manBytes[name] != baseManBytes[name] {
+						out.L2("uninvolved-changed", caseLine, "manifest of "+name+" changed")
+						continue
+					}
+					for _, l := range append(append([]Layer{}, m.Layers...), m.Config) {
+						rel := filepath.Join("blobs", strings.ReplaceAll(l.Digest, ":", "-"))
+						a, _ := os.ReadFile(filepath.Join(base, rel))
+						b, err := os.ReadFile(filepath.Join(dir, rel))
+						if err != nil || !bytes.Equal(a, b) {
+							out.L2("uninvolved-changed", caseLine, "layer "+l.Digest[7:19]+" of "+name+" changed or missing")
+						}
+					}
+				}
+				if !pruned {
+					// the model's restart on the crashed state (prune skipped: identity) is covered by `rerun`
+				}
+				// ---- repeat the operation
+				res2 := c12RunOp(t, sc.Op)
+				okish := res2 == "ok" || (sc.Op.Kind == "delete" && res2 == "err:notfound")
+				if !okish {
+					out.L2("rerun-failed", caseLine, fmt.Sprintf("window=%s pruned=%v torn=%v result=%s", window(n), pruned, torn, res2))
+				} else {
+					readable2, _ := c12Walk(dir)
+					for _, b := range c12CheckIntact(dir, readable2) {
+						out.L2("dangling-layer", caseLine, "after rerun: "+b)
+					}
+					if got := c12ReadableListing(dir); got != fullReadable {
+						out.L2("rerun-diverged", caseLine, fmt.Sprintf("window=%s readable manifests after rerun differ from the uninterrupted run: got [%s] want [%s]", window(n), got, fullReadable))
+					}
+				}
+				if !inRmRun {
+					resTok := "ok "
+					if res2 != "ok" {
+						resTok = "fail "
+					}
+					out.Case(fmt.Sprintf("rerun %d %s", k, job), strings.TrimSpace(resTok+c12ReadableListing(dir)))
+					out.Count("l1_rerun_lines")
+				}
+				out.Count("rerun_" + strings.SplitN(res2, ":", 3)[0])
+				os.RemoveAll(dir)
+			}
+		}
 	}
 }
